@@ -3,26 +3,26 @@
 import json, os
 ROOT = os.path.dirname(os.path.dirname(os.path.abspath(__file__)))
 LEVEL = ("bounded symbolic execution of the real code over exact reals; every obligation is an implication between polynomial "
-         "(in)equalities decided by z3 (QF_LRA monomial abstraction of QF_NRA with solver-checked lemma selection); "
-         "counterexample candidates are replayed on the unpatched float code before VIOLATION is printed")
+         "(in)equalities decided by z3 (QF_LRA monomial abstraction of QF_NRA with solver-checked lemma selection; a sample of the unsat verdicts is re-decided by cvc5); "
+         "counterexample candidates - concolic witnesses, recorded witness seeds, solver-made values of scalar inputs - are replayed on the unpatched float code before VIOLATION is printed")
 CLAIMED = {
  "C19": ("OPA: orthogonality / equal norm of the score series, bi-orthogonality of filter patterns and OPPs, reported decorrelation time == trapezoidal lag sum of the series own autocorrelation, descending order. Only part of the obligations is discharged symbolically (three chained SVD stubs); the rest is decided at witnesses (replayed) or reported INCONCLUSIVE", "5 C19"),
  "C20": ("per bootstrap member with ENUMERATED resample index vectors (rng stubbed): variances / components equal an independent EOF of exactly those rows, scores are the projection of the original samples, orthonormal components, non-negative descending variances, non-negative alignment statistic after the sign flip, member dimension length, seed forwarded", "5 C20"),
  "C11": ("kernel: real _varimax (1-2 iterations) and _promax on symbolic loadings: R unitary, Xrot == X R / X rot_mat; model level (promax contract): reconstruction from rotated scores == reconstruction from the same k unrotated modes, descending order on every path, Varimax keeps normalised scores orthonormal and conserves summed explained variance", "5 C11"),
- "C10": ("MCA/CCA/RDA == CPCCA at alpha 1 / 0 / (0,1); Complex model on real data == real model; ExtendedEOF(embedding=1) == EOF; MCA(X,X) == EOF(X) (singular values == explained variances, patterns up to sign) - term identities on shared symbolic data", "5 C10"),
+ "C10": ("MCA/CCA/RDA == CPCCA at alpha 1 / 0 / (0,1); Complex model on real data == real model; ExtendedEOF(embedding=1) == EOF; MCA(X,X) == EOF(X) (singular values == explained variances, patterns up to sign) - term identities on shared symbolic data, over every public result method; every constructor argument of the nine named cross-set classes reaches the general class unchanged", "5 C10"),
  "C09": ("components diagonalise the oracle fractionally whitened cross-covariance with the reported singular values on the diagonal; scores are the whitened data projected on them; singular values non-negative descending; MCA orthonormal components and total squared covariance; reported correlations are Gram correlations with unit self-correlation", "5 C09"),
  "C16": ("Whitener: covariance of whitened data == I (alpha=0), unchanged (alpha=1), K^q == C for alpha=1/q (attempted, may be inconclusive); data and pattern maps mutually inverse; T Tinv == I, T and Tinv Hermitian. PCA: orthonormal basis, transform == X V, round trip with all modes, pattern maps inverse on the retained subspace", "5 C16"),
  "C13": ("attribute codec (CrossHair over symbolic strings / bools / lists on the real functions) and rebuild-from-serialised-tree for every listed model class and codec (identity, netCDF attrs, JSON attrs, placeholders): equal parameters and term-identical components, scores, transform, inverse_transform, predict", "5 C13"),
  "C17": ("every enumerated single-fault mutation of a valid call raises on every explored path; range faults (n_modes, alpha) are symbolic so the solver covers all values; the valid variants named by the property are accepted", "5 C17"),
- "C15": ("threshold truncation keeps the smallest number of modes reaching a SYMBOLIC fraction f (or all, with warning); solver policy over symbolic n, p, n_modes; seeds and solver_kwargs reach the solver call; sign convention makes the largest-magnitude loading positive and is odd", "5 C15"),
+ "C15": ("threshold truncation keeps the smallest number of modes reaching a SYMBOLIC fraction f (or all, with warning); solver policy over symbolic n, p, n_modes; seeds and solver_kwargs reach the solver call; sign convention makes the largest-magnitude loading positive and is odd; seeds include 0; unwitnessed policy paths get solver-made witnesses", "5 C15"),
  "C07": ("pairs of fits on re-laid-out copies of one symbolic data set (transpose, feature/sample permutation, split over variables/list items, other dimension names) give equal singular values, components at each label and scores; SVD inputs verified to be permutations of each other, real sign convention executed", "5 C07"),
- "C14": ("frame step (every non-fit operation leaves all later answers, the model arrays names/attrs and the user inputs unchanged) and fit step (refit == fresh fit) - term identities for ALL values; induction over histories", "5 C14"),
+ "C14": ("frame step (every non-fit operation leaves all later answers, the model arrays names/attrs and the user inputs unchanged) and fit step (refit == fresh fit) - term identities for ALL values; induction over histories; operations include every accessor with default and non-default flags, weights with preprocessing flags off, second fits of EOF / Complex / Hilbert / Extended EOF, POP, rotator objects and cross-set models", "5 C14"),
  "C08": ("per-feature shifts (center), positive affine rescalings (standardize), user weights == pre-multiplied data, use_coslat == sqrt(cos lat) weights, global factor c: the two fits decompose identical (or exactly c-scaled) matrices and all outputs agree / scale as stated - for ALL values of data, shifts, scales, weights, c", "5 C08"),
  "C06": ("fit on data with fully missing rows/columns == fit on the reduced data (term identity), NaN exactly at deleted labels; every isolated-NaN mask and every mask mismatch at transform raises; cross-set NaN samples give the row-deleted pair or an error", "5 C06"),
  "C01": ("decomposed matrix == independent oracle; components orthonormal; scores orthogonal with norms s; explained variance == s^2/(n-1), descending, eigen-relation with the oracle covariance, total variance and ratios; residual orthogonal to retained modes - for ALL data values (EOF, ComplexEOF, HilbertEOF without padding, ExtendedEOF)", "5 C01"),
  "C02": ("container type, names, dims, label sets preserved and value at every label equal to the input symbol through the 2-D round trip and model accessors, over an enumerated layout space", "5 C02"),
  "C03": ("inverse_transform(scores()) == X at every label with all modes kept; transform(inverse_transform(S)) == S for an arbitrary symbolic S; normalized switches differ exactly by the norms - for ALL data/weight values within the shape bound", "5 C03"),
- "C04": ("transform(X_fit) == scores() for ALL data values, for every listed model class / alpha / power / layout within the shape bound", "5 C04"),
+ "C04": ("transform(X_fit) == scores() for ALL data values, for every listed model class / alpha / power / layout within the shape bound (single-set, rotated incl. 3 re-ordered modes, cross-set with both fields and each field alone, multi-set CCA)", "5 C04"),
  "C05": ("transform of new data keeps the new labels, has no NaN, commutes with concatenation along samples and restricts to row subsets of the training scores - for ALL values", "5 C05"),
 }
 NOTE = {
@@ -53,7 +53,7 @@ for p in sorted(CLAIMED):
         "evidence_file": f"evidence/{p}.json", "replay_cmd_template": f"./check {p} --replay {{path}}", "engine": "symx",
         "level_claimed": {"category": "other", "text": LEVEL + ". Claim: " + text, "design_ref": "DESIGN.md sections 2 and " + ref},
         "level_note": NOTE.get(p, NOTE["default"]),
-        "technique": "symbolic execution of the real code + SMT (z3, QF_LRA monomial abstraction), concrete replay",
+        "technique": "symbolic execution of the real code + SMT (z3 QF_LRA monomial abstraction, cvc5 second opinion), solver-made / recorded witnesses, concrete replay",
     })
 for p in ALL:
     if p in CLAIMED:
